@@ -7,11 +7,11 @@ package main
 // that it can be compared with a spec term.  Nothing is executed.
 
 import (
-	"sort"
-	"strconv"
 	"fmt"
 	"go/token"
 	"go/types"
+	"sort"
+	"strconv"
 	"strings"
 
 	"golang.org/x/tools/go/ssa"
